@@ -14,7 +14,7 @@ ASSUMPTIONS = ["content equality after the round trip, Shift-JIS losslessness an
                "Vec<u32>/Vec<u8> element sizes are 4/1"]
 
 BA = "mila::bin_archive::BinArchive"
-ELEM = {"std::vec::Vec<u8>": 1, "std::vec::Vec<u32>": 4}
+ELEM = {"std::vec::Vec<u8>": 1, "std::vec::Vec<u32>": 4, "std::vec::Vec<(u32, u32)>": 8}
 
 
 def resolve_through_constructors(facts, t, depth=0):
@@ -265,6 +265,10 @@ def run(facts, rep, ctx):
         rep.ok(R4, {"string at": "value + header", "label name at": "origin + offset + header"})
     elif r["string_seek"] is None or r["label_seek"] is None:
         rep.inconc(R4, "reader: position of the string / label-name reads not recognised (%s, %s)" % (r["string_seek"], r["label_seek"]))
+    elif "#" in str(r["label_seek"]) or "#" in str(r["string_seek"]).replace("value+hdr", ""):
+        # a position expressed through a local whose own definition was not followed (`start#61`): not a different
+        # position, an unresolved one
+        rep.inconc(R4, "reader: position of the string / label-name reads not resolved to header fields (%s, %s)" % (r["string_seek"], r["label_seek"]))
     else:
         rep.violation(R4, rd.name, "seeks", "string read at %s, label name at %s" % (r["string_seek"], r["label_seek"]), "%s:%s" % (rd.file, rd.line))
 
@@ -366,7 +370,7 @@ def writer_model(facts, rep, R1, ser):
         """bytes emitted per element of the vector: its element size, provided the loop writes that many words"""
         ty = nv.local_ty(la[1])
         k_ = words_per_item.get(la, 1)
-        if ty in ELEM and k_ == 1:
+        if ty in ELEM and k_ == 1 and ty != "std::vec::Vec<(u32, u32)>":
             return ELEM[ty]
         if ty == "std::vec::Vec<(u32, u32)>" and k_ == 2:
             return 8
